@@ -55,3 +55,9 @@ MUTANTS += [
      [(PK, "        media_part = self._find_by_sha1(media.sha1)\n        if media_part is None:", "        media_part = getattr(self, '_last', None) or self._find_by_sha1(media.sha1)\n        if media_part is None:")],
      "R15.2 _MediaParts.get_or_add_media_part"),
 ]
+
+MUTANTS += [
+    ("stream-not-rewound", "Image.from_file reads the caller's stream where its cursor happens to be",
+     [("src/pptx/parts/image.py", "            if callable(getattr(image_file, \"seek\")):\n                image_file.seek(0)\n", "")],
+     "R15.5 Image.from_file"),
+]
